@@ -15,10 +15,10 @@ func TestScheme(t *testing.T) {
 		{"hTtPs://x", "https", true},
 		{"javascript:alert(1)", "javascript", true},
 		{"JaVaScRiPt:alert(1)", "javascript", true},
-		{"  javascript:alert(1)", "javascript", true},       // leading space stripped
+		{"  javascript:alert(1)", "javascript", true},           // leading space stripped
 		{"\x00\x01\x1fjavascript:alert(1)", "javascript", true}, // leading C0 controls stripped
-		{"java\tscript:alert(1)", "javascript", true},       // tab removed anywhere
-		{"j\na\rv\tascript\n:alert(1)", "javascript", true}, // newline removed anywhere
+		{"java\tscript:alert(1)", "javascript", true},           // tab removed anywhere
+		{"j\na\rv\tascript\n:alert(1)", "javascript", true},     // newline removed anywhere
 		{"javascript\t:x", "javascript", true},
 		{"a+b-c.d1:x", "a+b-c.d1", true},
 		{"mailto:a@b", "mailto", true},
@@ -29,16 +29,16 @@ func TestScheme(t *testing.T) {
 		{"?a:b", "", false},
 		{"#a:b", "", false},
 		{":foo", "", false},
-		{"1http://x", "", false},     // scheme must start with an ASCII alpha
+		{"1http://x", "", false}, // scheme must start with an ASCII alpha
 		{"+http://x", "", false},
-		{"ht tp://x", "", false},     // embedded space is not removed
+		{"ht tp://x", "", false},        // embedded space is not removed
 		{"java\x00script:x", "", false}, // embedded NUL is not removed
 		{"java\x0bscript:x", "", false}, // VT is not tab-or-newline
 		{"java\x0cscript:x", "", false}, // FF neither
 		{"javascript&colon;x", "", false},
 		{"javascript%3Ax", "", false},
-		{"httpſ:x", "", false},   // long s is not ASCII
-		{"Kelvin:x", "", false},  // Kelvin sign
+		{"httpſ:x", "", false},  // long s is not ASCII
+		{"Kelvin:x", "", false}, // Kelvin sign
 		{"é:x", "", false},
 		{"a\\b:c", "", false},
 		{"//host/x:y", "", false},
